@@ -223,7 +223,7 @@ def rule_formulas(F, R):
             # criterion overload adds the missing RSS
             f4 = [f for f in ev0.functions("score_" + side, 4, "cache_t")][0]
             rv = [v for v in f4.nodes() if v["k"] == "var" and v["n"] == "rss" and v.get("c")]
-            okr = len(rv) == 1 and pp(rv[0]["c"][0]) == "(score_%s(threshold) + missing_rss)" % side
+            okr = len(rv) == 1 and pp(rv[0]["c"][0]) == CT("(score_%s(threshold) + missing_rss)" % side)
             R.check(okr, "R-C10-1", "hinge rss_" + side, f4.loc(), "rss = score_%s(threshold) + missing_rss" % side, "rss of the %s hinge is %s" % (side, pp(rv[0]["c"][0]) if rv else "?"))
     except (OutOfFragment, IndexError) as e:
         R.incomplete("R-C10-1", "hinge score", file + ":1", "cannot evaluate: %s" % e)
@@ -388,7 +388,7 @@ def rule_predicates(F, R):
         thr = [x for x in g.nodes() if assignment(x) and pp(assignment(x)[0]) == "cache.m_threshold"]
         t0 = [x for x in g.nodes() if assignment(x) and pp(assignment(x)[0]) == "cache.m_tables.array(0)"]
         t1 = [x for x in g.nodes() if assignment(x) and pp(assignment(x)[0]) == "cache.m_tables.array(1)"]
-        okf = len(up) == 1 and "ivalue1.second" in pp(up[0]) and len(guards) == 1 and len(thr) == 1 and pp(assignment(thr[0])[1]) == "(0.5 * (ivalue1.first + ivalue2.first))" and \
+        okf = len(up) == 1 and "ivalue1.second" in pp(up[0]) and len(guards) == 1 and len(thr) == 1 and pp(assignment(thr[0])[1]) == CT("(0.5 * (ivalue1.first + ivalue2.first))") and \
             len(t0) == 1 and pp(assignment(t0[0])[1]) == "cache.output_neg()" and len(t1) == 1 and pp(assignment(t1[0])[1]) == "cache.output_pos()"
         # the update of the lower side precedes the scoring in the same iteration
         if okf:
@@ -433,9 +433,9 @@ def rule_predicates(F, R):
                 side = m.group(1)
                 sides.append(asg.get("cache.m_hinge") == ("hinge_type::left" if side == "neg" else "hinge_type::right") and
                              asg.get("cache.m_tables.array(0)") == "cache.beta_%s(threshold)" % side and
-                             asg.get("cache.m_tables.array(1)") == "((-threshold) * cache.m_tables.array(0))" and asg.get("cache.m_threshold") == "threshold")
+                             asg.get("cache.m_tables.array(1)") == CT("((-threshold) * cache.m_tables.array(0))") and asg.get("cache.m_threshold") == "threshold")
         thr = [v for v in g.nodes() if v["k"] == "var" and v["n"] == "threshold" and v.get("c")]
-        okf = sides == [True, True] and len(thr) == 1 and pp(thr[0]["c"][0]) == "(0.5 * (ivalue1.first + ivalue2.first))"
+        okf = sides == [True, True] and len(thr) == 1 and pp(thr[0]["c"][0]) == CT("(0.5 * (ivalue1.first + ivalue2.first))")
     R.check(okf, "R-C10-3", "hinge sweep", hf[0].loc() if hf else "src/wlearner/hinge.cpp:1", "left hinge <-> lower side slope, right hinge <-> upper side slope, intercept = -threshold*slope",
             "the hinge sweep no longer stores (side, slope, intercept) consistently")
     # affine
